@@ -19,6 +19,9 @@ START_NETS = {
     "batch4": ("xa,xab,xb,bc->xc", {}),
     "presum4": ("abp,bcq,cd,dq->a", {}),
     "diag4": ("aab,bcc,cd,d->a", {}),
+    # two indices private to ONE tensor (after slicing one of them the
+    # tensor still needs its single-term preprocessing), plus a trace
+    "presum2x3": ("abpr,bcss,c->a", {}),
     "comps4": ("ab,b,cd,d->ca", {}),
     "perm3": ("abc,cde,efa->dbf", {}),
     "ring5": ("abx,bc,cd,de,ea->x", {}),
@@ -36,7 +39,7 @@ START_NETS = {
 }
 
 TREE_SHAPES = {
-    3: {"comb": ((0, 1), 2), "comb2": (0, (1, 2))},
+    3: {"comb": ((0, 1), 2), "comb2": (0, (1, 2)), "bal": ((0, 1), 2)},
     4: {"comb": (((0, 1), 2), 3), "bal": ((0, 1), (2, 3)),
         "comb-r": (0, (1, (2, 3))), "bal2": ((0, 3), (1, 2))},
     5: {"comb": ((((0, 1), 2), 3), 4), "bal": (((0, 1), (2, 3)), 4),
